@@ -55,14 +55,14 @@ for pid,(short,code,outside) in P.items():
       "replay_cmd_template": "/verif/bin/goitsym replay {path}",
       "engine": "goitsym",
       "level_claimed": {"category":"model_checking",
-         "text": f"Bounded symbolic execution of the real code ({short}): {code}. Every input byte/integer inside the bound is a solver variable; each assertion is discharged by z3 as unsat of (path condition AND NOT assertion) on every feasible path, so the property holds for ALL values inside the bound, not for samples. A sat answer is replayed against the real build before it is reported.",
+         "text": f"Bounded symbolic execution of the real code ({short}): {code}. Every input byte/integer inside the bound is a solver variable; each assertion is discharged by the SMT solver as unsat of (path condition AND NOT assertion) on every feasible path, so the property holds for ALL values inside the bound, not for samples. A sat answer is replayed against the real build before it is reported.",
          "design_ref":"DESIGN.md §3, §5 "+pid+", §11"},
       "level_note": ASSUME+" Outside the claim: "+outside+".",
-      "technique": "bounded symbolic execution of go/ssa + SMT (z3, QF_BV); counterexamples replayed natively"})
+      "technique": "bounded symbolic execution of go/ssa + SMT (z3, QF_BV; cvc5 cross-check in the thorough tier); counterexamples replayed natively"})
 m={"version":1,
  "setup_cmd":"mkdir -p /verif/bin && cd /verif/engine && GOFLAGS=-mod=mod GOPROXY=off GOSUMDB=off GOTOOLCHAIN=local go build -o /verif/bin/goitsym .",
  "hooks":{"guard":"verif","enable":"no hook exists: harnesses are injected by go/packages and `go test -overlay` overlays (harness/*), so /repo carries no instrumentation and the guard is unused","baseline_off_cmd":"cd /repo && GOFLAGS=-mod=mod go test -vet=off -count=1 ./...","source_commits":[],"add_only":True},
- "engines":[{"name":"goitsym","path":"/verif/engine","serves_properties":sorted(P.keys()),"kind_free_text":"symbolic executor for Goit's go/ssa form written for this task: path conditions in SMT-LIB2 (QF_BV) decided by z3 4.8.12 over pipes; intrinsic models for the standard library, file system, process start, crash and fault indices"}],
+ "engines":[{"name":"goitsym","path":"/verif/engine","serves_properties":sorted(P.keys()),"kind_free_text":"symbolic executor for Goit's go/ssa form written for this task: path conditions in SMT-LIB2 (QF_BV) decided by z3 (5.1.0 `z3-new` when present, else 4.8.12) over pipes, thorough tier cross-checked by cvc5; intrinsic models for the standard library, file system, process start, crash and fault indices"}],
  "checks":checks,
  "not_applicable":[],
  "notes":"Each check reloads /repo's current working tree with go/packages (overlaying /verif/harness/**) and rebuilds the SSA on every run; nothing is cached. known_findings.json lists 29 defects found by these checks and repaired by 'fix:' commits in /repo; no unrepaired finding is listed."}
